@@ -296,6 +296,77 @@ func generalFamily(k int, stride int, emit func(src, fam string)) {
 	rec(0, nil)
 }
 
+func hexArr(elBits, n, salt int) string {
+	s := "0x"
+	for i := 0; i < n; i++ {
+		v := (i*37 + salt*11 + 5) & (1<<uint(elBits) - 1)
+		s += fmt.Sprintf("%0*x", elBits/4, v)
+	}
+	return s
+}
+
+func sameShape(ctx *runner.Ctx, quick bool, idx *int) {
+	run := func(fam, src, g, e string) {
+		*idx++
+		if !ctx.Mine(*idx) || ctx.Expired() {
+			return
+		}
+		runCase(ctx, cs{Src: src, G: g, E: e, OT: "ideal", Fam: fam})
+	}
+	// two (three) run-time index operations over arrays of equal total width and different element widths,
+	// indexed by one variable
+	els := []int{4, 8, 16, 32}
+	for _, total := range []int{32, 64} {
+		for i, e1 := range els {
+			for _, e2 := range els[i+1:] {
+				if total%e2 != 0 || total/e2 < 2 {
+					continue
+				}
+				n1, n2 := total/e1, total/e2
+				mask := n2 - 1
+				for _, order := range []int{0, 1} {
+					first, second := "a[i]", "b[i]"
+					if order == 1 {
+						first, second = "b[i]", "a[i]"
+					}
+					src := fmt.Sprintf("package main\n\nfunc main(a [%d]uint%d, b [%d]uint%d, c uint8) (uint%d, uint%d) {\n\ti := c & %d\n\tx := %s\n\ty := %s\n\treturn uint%d(x) + uint%d(y), uint%d(x) ^ uint%d(y)\n}\n",
+						n1, e1, n2, e2, e1, e2, mask, first, second, e1, e1, e2, e2)
+					_ = src
+					// index by an evaluator value: main(a garbler array, e struct?) - keep two-party: a and c from
+					// the garbler would need a compound input; use a package-level table for b instead
+					src = fmt.Sprintf("package main\n\nfunc main(a [%d]uint%d, b [%d]uint%d) (uint%d, uint%d) {\n\ti := b[0] & %d\n\tx := %s\n\ty := %s\n\treturn uint%d(x) + uint%d(y), uint%d(x) ^ uint%d(y)\n}\n",
+						n1, e1, n2, e2, e1, e2, mask, first, second, e1, e1, e2, e2)
+					for sel := 0; sel <= mask; sel++ {
+						if quick && sel > 1 && sel < mask {
+							continue
+						}
+						// b[0] selects the index; its other elements are distinct
+						e := "0x" + fmt.Sprintf("%0*x", e2/4, sel) + hexArr(e2, n2-1, sel)[2:]
+						run("same-shape-index", src, hexArr(e1, n1, sel), e)
+					}
+				}
+			}
+		}
+	}
+	// slices, casts and shifts of one value that differ only in constant offsets / result widths
+	for _, w := range []int{16, 32} {
+		h := w / 2
+		q := w / 4
+		srcs := []string{
+			fmt.Sprintf("package main\n\nfunc main(a, b uint%d) (uint%d, uint%d, uint%d, uint%d) {\n\tx := a + b\n\treturn x[0:%d], x[%d:%d], x[%d:%d], x[%d:%d]\n}\n", w, q, q, h, h, q, q, 2*q, h, w, 0, h),
+			fmt.Sprintf("package main\n\nfunc main(a, b uint%d) (uint%d, uint%d, uint%d) {\n\tx := a ^ b\n\treturn uint%d(x), uint%d(x >> %d), uint%d(x >> %d)\n}\n", w, h, h, q, h, h, h, q, q),
+			fmt.Sprintf("package main\n\nfunc main(a, b uint%d) (uint%d, uint%d, uint%d) {\n\tx := a & b\n\treturn x + 1, x + 2, (x + 1) * (x + 3)\n}\n", w, w, w, w),
+			fmt.Sprintf("package main\n\nfunc main(a, b uint%d) (bool, bool, uint%d, uint%d) {\n\treturn a < b, a <= b, a / (b | 1), a %% (b | 1)\n}\n", w, w, w),
+			fmt.Sprintf("package main\n\nfunc main(a, b int%d) (bool, bool, int%d, int%d, uint%d) {\n\treturn a < b, uint%d(a) < uint%d(b), a >> 1, a / (b | 1), uint%d(a) / (uint%d(b) | 1)\n}\n", w, w, w, w, w, w, w, w),
+		}
+		for _, src := range srcs {
+			for _, in := range [][2]string{{"0x1234", "0x0ff1"}, {"0xffff", "0x0001"}, {"0x8001", "0x7ffe"}, {"40000", "3"}} {
+				run("same-shape-const", src, in[0], in[1])
+			}
+		}
+	}
+}
+
 var fixedPrograms = []struct {
 	name, src string
 	sizes     [][]int
@@ -312,6 +383,8 @@ var fixedPrograms = []struct {
 	{"wide-instr-mod128", "package main\n\nfunc main(a, b uint128) uint128 {\n\treturn a % (b | 1)\n}\n", nil, []string{"340282366920938463463374607431768211455"}, []string{"18446744073709551629"}},
 	{"zero-width-evaluator", "package main\n\nfunc main(g uint16, e [0]byte) (uint8, uint16) {\n\treturn uint8(g >> 3), g + 1\n}\n", nil, []string{"65535", "37"}, []string{"0", "0"}},
 	{"zero-width-garbler", "package main\n\nfunc main(g [0]byte, e uint8) (uint8, bool) {\n\treturn e ^ 0x5a, e > 7\n}\n", nil, []string{"0", "0"}, []string{"200", "5"}},
+	{"array-concat", "package main\n\nfunc main(a [4]uint8, b [4]uint8) ([8]uint8, uint32) {\n\tvar t uint32 = uint32(b[0]) + 7\n\tc := a + b\n\tt = t * 3\n\treturn c, t\n}\n", nil, []string{"0x01020304", "0xfffefdfc"}, []string{"0x05060708", "0x00010203"}},
+	{"array-concat-reuse", "package main\n\nfunc main(a [2]uint8, b [2]uint8) ([4]uint8, [4]uint8, uint16) {\n\tc := a + b\n\td := b + a\n\tx := uint16(a[0]) * uint16(b[1])\n\ty := x + uint16(c[3])\n\treturn c, d, y\n}\n", nil, []string{"0x0102", "0xfffe"}, []string{"0x0506", "0x0001"}},
 	{"loop", "package main\n\nfunc main(a, b uint8) uint8 {\n\tvar sum uint8\n\tfor i := 0; i < 4; i++ {\n\t\tt := (a >> i) & 1\n\t\tsum = sum + t*b\n\t}\n\treturn sum\n}\n", nil, []string{"13", "255"}, []string{"7", "3"}},
 }
 
@@ -397,6 +470,10 @@ func work(ctx *runner.Ctx) {
 			runCase(ctx, cs{Src: src, G: gi[pr[0]], E: ei[pr[1]], OT: "ideal", Fam: "gen-" + g.Fam})
 		}
 	}
+	// instructions that agree in operator and operand bit counts but differ in their typed shape (element width
+	// of an indexed array, result width or offsets of a slice/cast, constant operand value): per-instruction
+	// circuits are cached during streaming and a cache that merges two of them computes the wrong one
+	sameShape(ctx, quick, &idx)
 	mpclgen.Statements(quick, genEmit)
 	mpclgen.Casts(quick, genEmit)
 	for fi, f := range fixedPrograms {
